@@ -339,6 +339,10 @@ def geo_edit_sets(rng, ev: Eval, full_vars: int) -> list:
         E.append(('rename', name, [{'op': 'g_rename', 'var': name, 'to': rng.choice([name + '_r', 'r_' + name, name + '_ω', 'x'])}]))
         k, val = rng.choice(NEW_ATTRS)
         E.append(('attr_add', name, [{'op': 'g_attr_add', 'var': name, 'key': k, 'value': val}]))
+        # attribute names of every shape count, also the underscore-prefixed ones netCDF tools write
+        k, val = rng.choice([('_CoordinateAxisType', 'Lat'), ('_note', 'added'), ('_Storage', 'chunked'), ('_', 1),
+                             ('__x', {'t': 'float', 'v': 0.5})])
+        E.append(('attr_add', name, [{'op': 'g_attr_add', 'var': name, 'key': k, 'value': val}]))
         neutral = [k for k, _ in K.NEUTRAL_ATTRS if k in v.attrs]
         for k in rng.sample(neutral, min(len(neutral), 3)):
             E.append(('attr_change', name, [{'op': 'g_attr_change', 'var': name, 'key': k, 'variant': rng.randrange(4)}]))
@@ -754,6 +758,35 @@ def run(ctx) -> None:
         g0, c0 = geometry_content(b.ds, b.state)
         child_cases.append(bcase)
         child_expect.append((b.key, bdesc))
+
+        # ---------- a history on ONE dataset object: key, edit a geometry variable in place, key again ----------
+        # (the key is a function of the content at the time of the call, not of the object it was first asked of)
+        try:
+            from emsarray.operations.cache import make_cache_key
+            hds, hstate, _ = K.materialise(bcase)
+            K.make_convention(hds, hstate)
+            k1 = make_cache_key(hds)
+            hname = rng.choice([n for n in hstate['expected'] if n in hds.variables])
+            hvar = hds.variables[hname]
+            how = 'attr'
+            if type(hvar).__name__ != 'IndexVariable' and hvar.dtype.kind == 'f' and hvar.size and rng.random() < 0.5:
+                raw = hvar.values
+                flat = raw.reshape(-1)
+                if np.shares_memory(flat, raw) and np.isfinite(flat[0]):
+                    flat[0] += 0.125
+                    how = 'value'
+            if how == 'attr':
+                hvar.attrs['comment'] = 'edited in place'
+            k2 = make_cache_key(hds)
+            ctx.evaluated()
+            ctx.count(f'history:{how}')
+            if k2 == k1 == b.key:
+                ctx.oracle_fail('cache-key-stale-after-inplace-edit', {'case': bcase, 'variable': hname, 'how': how,
+                                                                     'history': ['key', f'edit {hname} in place ({how})', 'key']},
+                                f'make_cache_key(ds) twice on one dataset object with {hname} edited in place in between '
+                                f'returns the same key {k1[:16]}…')
+        except Exception as ex:  # noqa  -- a dataset the in-place edit does not apply to
+            ctx.count(f'history-n/a:{type(ex).__name__}')
 
         # ---------- non-geometry edits: the key must not move ----------
         for kind, edits in nongeo_edit_sets(rng, b):
